@@ -112,6 +112,7 @@ type Index struct {
 	Refs   []*Ref
 	byFunc map[*types.Func][]*Site
 	Decls  map[*types.Func]*DeclInfo
+	named  []*types.Named
 }
 
 type DeclInfo struct {
@@ -232,10 +233,43 @@ func (ix *Index) SitesOf(f *types.Func) []*Site {
 		}
 		if implementsLoose(recv, it) {
 			out = append(out, sites...)
+			continue
+		}
+		// a repository type that implements the interface may promote f through an embedded field
+		for _, T := range ix.namedTypes() {
+			pt := types.NewPointer(T)
+			if !implementsLoose(pt, it) {
+				continue
+			}
+			obj, _, _ := types.LookupFieldOrMethod(pt, true, f.Pkg(), f.Name())
+			if fo, ok := obj.(*types.Func); ok && fo.Origin() == f {
+				out = append(out, sites...)
+				break
+			}
 		}
 	}
 	sort.Slice(out, func(i, j int) bool { return out[i].Call.Pos() < out[j].Call.Pos() })
 	return out
+}
+
+// namedTypes lists the named (non-interface) types declared in repository packages.
+func (ix *Index) namedTypes() []*types.Named {
+	if ix.named != nil {
+		return ix.named
+	}
+	for _, pk := range ix.Prog.RepoPackages() {
+		sc := pk.Types.Scope()
+		for _, n := range sc.Names() {
+			if tn, ok := sc.Lookup(n).(*types.TypeName); ok {
+				if nt, ok := tn.Type().(*types.Named); ok {
+					if _, isIface := nt.Underlying().(*types.Interface); !isIface && nt.TypeParams().Len() == 0 {
+						ix.named = append(ix.named, nt)
+					}
+				}
+			}
+		}
+	}
+	return ix.named
 }
 
 func implementsLoose(t types.Type, it *types.Interface) bool {
